@@ -452,11 +452,12 @@ theorem drawCell_body (c : DrawCfg) (s : Scr) (x y : Int) : BodyOk s (s.drawCell
   · split
     · simp only
       have h1 := paint_body c s x y
+      generalize Scr.cornerPx (s.paint c x y).1 x y = px
       have h3 := drawCellPlain_body c
-        { (s.paint c x y).1 with cy := y, cx := x - 1, cells := (s.paint c x y).1.cells.setDirty (x - 1) y true } (x - 1) y
+        { (s.paint c x y).1 with cy := y, cx := x - 1, cells := (s.paint c x y).1.cells.setDirty px y true } px y
       refine ⟨?_, ?_⟩
       · have h2 : sameCursorFlags (s.paint c x y).1
-            { (s.paint c x y).1 with cy := y, cx := x - 1, cells := (s.paint c x y).1.cells.setDirty (x - 1) y true } := by
+            { (s.paint c x y).1 with cy := y, cx := x - 1, cells := (s.paint c x y).1.cells.setDirty px y true } := by
           simp [sameCursorFlags]
         exact sameCursorFlags.trans (sameCursorFlags.trans (sameCursorFlags.trans h1.1 h2) h3.1) (by simp [sameCursorFlags])
       · intro k hk
